@@ -105,7 +105,7 @@ fn main() {
             let cfg = ParentCfg {
                 exe: std::env::current_exe().unwrap(),
                 nworkers,
-                cpu_cap_s: std::env::var("VERIF_CPU_CAP").ok().and_then(|s| s.parse().ok()).unwrap_or(60),
+                cpu_cap_s: std::env::var("VERIF_CPU_CAP").ok().and_then(|s| s.parse().ok()).unwrap_or(20),
                 wall_cap_s: 300,
             };
             let out = parent_main(&def, &ctx, &cfg);
